@@ -86,8 +86,8 @@ func c05ExtremeRandomness(r *mon.Run, keys []string) {
 			ms = ms[:1]
 		}
 		for target := 1; target <= 6; target++ {
-			for _, pat := range []byte{0xFF, 0x00} {
-				fr := &faultReader{inner: orig, target: target, pattern: pat}
+			for pi, pat := range []byte{0xFF, 0x00, 0x01} {
+				fr := &faultReader{inner: orig, target: target, pattern: pat, fail: pi == 2}
 				crand.Reader = fr
 				var sig *gabi.CLSignature
 				var err error
@@ -97,6 +97,9 @@ func c05ExtremeRandomness(r *mon.Run, keys []string) {
 					continue
 				}
 				desc := fmt.Sprintf("key=%s random read #%d answered with 0x%02X", kn, target, pat)
+				if fr.fail {
+					desc = fmt.Sprintf("key=%s random read #%d fails", kn, target)
+				}
 				r.Distinct("extreme-randomness", desc)
 				if pv != nil {
 					r.Eval("extreme-randomness", "panic")
